@@ -128,6 +128,8 @@ def declare(spec, cfg, poly=False, ocp=None, stage=None, with_method=True, paren
         kw = {}
         kw['t0'] = hv(spec.t0) if spec.t0[0] != 'param' else 0
         kw['T'] = hv(spec.T) if spec.T[0] != 'param' else 1
+        if getattr(spec, 'shared_freetime', False) and spec.t0[0] == 'free' and spec.T[0] == 'free' and spec.t0[1] == spec.T[1]:
+            kw['T'] = kw['t0']          # one and the same FreeTime object for both ends of the horizon
         ocp = Ocp(**kw)
         stage = ocp
     b.ocp = ocp
